@@ -42,18 +42,41 @@ package file
 //@ ensures result.(*file.shardNodeReader).offset == 0 && result.(*file.shardNodeReader).rdr == nil && result.(*file.shardNodeReader).shardNodeFile == s
 //@ assigns nothing
 
+// flen(s) is DEFINED as what length() reports when it succeeds (clause defines-flen, assumed). What
+// is proved about it: measuring a node whose children declare their sizes requests no block; a block
+// that cannot be loaded while measuring is reported (C12); and when the length comes from the links
+// it is the sum of the sizes the reader uses to place the children (startOf(s, nkids(s))), so
+// seek-to-end agrees with the bytes a full read yields.
 //@ func (*file.shardNodeFile).length
-//@ trusted
-//@ ensures result == flen(s)
-//@ ensures loads == old(loads)
-//@ assigns file.shardNodeFile.metadata, file.shardNodeFile.unpackLk
+//@ domain links-is-a-list: isList(lookupStr(s.substrate, "Links"))
+//@ ensures defines-flen: err == nil ==> result == flen(s)
+//@ assumed defines-flen
+//@ ensures measuring-declared-sizes-requests-no-block: sizesDeclared(s) ==> loads == old(loads)
+//@ ensures load-failure-is-returned: err == nil ==> loadFailed == old(loadFailed)
+//@ ensures error-means-zero: err != nil ==> result == 0
+
+//@ func (*file.shardNodeFile).lengthFromLinks
+//@ domain links-is-a-list: isList(lookupStr(s.substrate, "Links"))
+//@ ensures measuring-declared-sizes-requests-no-block: sizesDeclared(s) ==> loads == old(loads)
+//@ ensures load-failure-is-returned: err == nil ==> loadFailed == old(loadFailed)
+//@ ensures sum-of-the-childrens-sizes: err == nil ==> result == startOf(s, nkids(s))
+//@ ensures error-means-zero: err != nil ==> result == 0
+//@ loop 0 invariant pos-algebra: 0 <= itpos(li) && itpos(li) <= itlen(li) && itlen(li) == nkids(s) && size == startOf(s, itpos(li))
+//@ inst pos-algebra: f: s
+//@ inst pos-algebra: i: itpos(li) - 1
+//@ inst pos-algebra: i: itpos(li)
+//@ loop 0 invariant nothing-requested-so-far: sizesDeclared(s) ==> loads == old(loads)
+//@ loop 0 invariant no-unreported-failure: loadFailed == old(loadFailed)
 
 //@ func (*file.shardNodeReader).Seek
-//@ ensures seeking-requests-no-block: loads == old(loads)
+//@ ensures seeking-requests-no-block: whence != 2 || sizesDeclared(s.shardNodeFile) ==> loads == old(loads)
 //@ domain no-wrap: -(1 << 62) < offset && offset < (1 << 62) && -(1 << 62) < s.offset && s.offset < (1 << 62) && -(1 << 62) < flen(s.shardNodeFile) && flen(s.shardNodeFile) < (1 << 62)
-//@ ensures negative-target-is-error: seekTarget(whence, offset, old(s.offset), flen(s.shardNodeFile)) < 0 ==> err != nil && s.offset == old(s.offset) && s.rdr == old(s.rdr)
-//@ ensures lands-on-target: seekTarget(whence, offset, old(s.offset), flen(s.shardNodeFile)) >= 0 ==> err == nil && result == seekTarget(whence, offset, old(s.offset), flen(s.shardNodeFile)) && s.offset == result && s.rdr == nil
-//@ assigns s.offset, s.rdr, file.shardNodeFile.metadata, file.shardNodeFile.unpackLk
+//@ domain links-is-a-list: isList(lookupStr(s.shardNodeFile.substrate, "Links"))
+//@ ensures negative-target-is-error: err == nil || whence != 2 ==> (seekTarget(whence, offset, old(s.offset), flen(s.shardNodeFile)) < 0 ==> err != nil)
+//@ ensures an-error-does-not-move-the-reader: err != nil ==> s.offset == old(s.offset) && s.rdr == old(s.rdr)
+//@ ensures lands-on-target: err == nil ==> result == seekTarget(whence, offset, old(s.offset), flen(s.shardNodeFile)) && result >= 0 && s.offset == result && s.rdr == nil
+//@ ensures only-a-negative-target-or-an-unmeasurable-file-fails: whence != 2 && seekTarget(whence, offset, old(s.offset), flen(s.shardNodeFile)) >= 0 ==> err == nil
+//@ ensures load-failure-is-returned: err == nil ==> loadFailed == old(loadFailed)
 
 // ---------------------------------------------------------------------------------------------
 // C14: the node exposed as the substrate of a reified file is the node that was reified.
